@@ -807,6 +807,9 @@ var editKinds = []editKind{
 	}, editDrop("VORG")},
 	{"drop-avar", false, func(t *faceTraits) bool { return smallGlyf(t) && t.Gvar && t.Avar }, editDrop("avar")},
 	{"drop-MVAR", false, func(t *faceTraits) bool { return smallGlyf(t) && t.Fvar && t.MVAR }, editDrop("MVAR")},
+	{"cff2-two-font-dicts", true, func(t *faceTraits) bool {
+		return t.CFF2 && t.Fvar && t.NumGlyphs <= editMaxGlyphs && (t.Container == "ttf" || t.Container == "otf") && t.Index == 0
+	}, editCff2TwoFontDicts},
 }
 
 func editByName(name string) *editKind {
@@ -829,4 +832,302 @@ func applyEdit(orig []byte, kind *editKind, seed uint64) (data []byte, touched [
 		return nil, nil, false
 	}
 	return f.build(), touched, true
+}
+
+// ---------------------------------------------------------------------------------------------
+// CFF2: a second font dict and a second ItemVariationData
+//
+// editCff2TwoFontDicts turns a single-FD CFF2 table into a legal two-FD one without touching a
+// charstring: FDArray = [new FD 0 whose private dict is just `vsindex 1`, the original FD as FD 1],
+// FDSelect (format 0) maps every glyph to FD 1, and the variation store gets a second
+// ItemVariationData with a different region count. Every glyph still blends with ItemVariationData 0
+// (FD 1 does not name a vsindex), so no decoded value may change (value-preserving edit).
+// Layout: header, new Top DICT, the original table from the global subr INDEX to its end (shifted,
+// so CharStrings / Private offsets are rebased), then the new FDArray, private dict, FDSelect, vstore.
+
+// dictTokens splits DICT data into (operands bytes, operator) pairs.
+type dictEntry struct {
+	operands []byte
+	op       uint16 // 0x0Cxx for escaped
+	nums     []int  // integer operands (reals: 0)
+}
+
+func parseDict(b []byte) ([]dictEntry, bool) {
+	var out []dictEntry
+	start, p := 0, 0
+	var nums []int
+	for p < len(b) {
+		c := b[p]
+		switch {
+		case c == 28:
+			if p+3 > len(b) {
+				return nil, false
+			}
+			nums = append(nums, int(int16(binary.BigEndian.Uint16(b[p+1:]))))
+			p += 3
+		case c == 29:
+			if p+5 > len(b) {
+				return nil, false
+			}
+			nums = append(nums, int(int32(binary.BigEndian.Uint32(b[p+1:]))))
+			p += 5
+		case c == 30:
+			p++
+			for {
+				if p >= len(b) {
+					return nil, false
+				}
+				v := b[p]
+				p++
+				if v&0x0F == 0x0F || v>>4 == 0x0F {
+					break
+				}
+			}
+			nums = append(nums, 0)
+		case c >= 32 && c <= 246:
+			nums = append(nums, int(c)-139)
+			p++
+		case c >= 247 && c <= 250:
+			if p+2 > len(b) {
+				return nil, false
+			}
+			nums = append(nums, (int(c)-247)*256+int(b[p+1])+108)
+			p += 2
+		case c >= 251 && c <= 254:
+			if p+2 > len(b) {
+				return nil, false
+			}
+			nums = append(nums, -(int(c)-251)*256-int(b[p+1])-108)
+			p += 2
+		case c == 255:
+			return nil, false
+		default: // operator
+			e := dictEntry{operands: b[start:p], nums: nums}
+			if c == 12 {
+				if p+2 > len(b) {
+					return nil, false
+				}
+				e.op = 0x0C00 | uint16(b[p+1])
+				p += 2
+			} else {
+				e.op = uint16(c)
+				p++
+			}
+			out = append(out, e)
+			start, nums = p, nil
+		}
+	}
+	return out, start == len(b)
+}
+
+func dictInt(v int) []byte {
+	return []byte{29, byte(v >> 24), byte(v >> 16), byte(v >> 8), byte(v)}
+}
+
+// index2Size returns the byte size of a CFF2 INDEX starting at b[off:].
+func index2Size(b []byte, off int) (size, count int, ok bool) {
+	n, ok := be32(b, off)
+	if !ok {
+		return 0, 0, false
+	}
+	if n == 0 {
+		return 4, 0, true
+	}
+	if off+5 > len(b) {
+		return 0, 0, false
+	}
+	os := int(b[off+4])
+	if os < 1 || os > 4 {
+		return 0, 0, false
+	}
+	lastOff := off + 5 + int(n)*os
+	if lastOff+os > len(b) {
+		return 0, 0, false
+	}
+	last := 0
+	for k := 0; k < os; k++ {
+		last = last<<8 | int(b[lastOff+k])
+	}
+	size = 5 + (int(n)+1)*os + last - 1
+	return size, int(n), off+size <= len(b)
+}
+
+func index2Item(b []byte, off, i int) ([]byte, bool) {
+	os := int(b[off+4])
+	rd := func(k int) int {
+		v := 0
+		for j := 0; j < os; j++ {
+			v = v<<8 | int(b[off+5+k*os+j])
+		}
+		return v
+	}
+	n := int(binary.BigEndian.Uint32(b[off:]))
+	data := off + 5 + (n+1)*os - 1
+	a, e := data+rd(i), data+rd(i+1)
+	if a > e || e > len(b) {
+		return nil, false
+	}
+	return b[a:e], true
+}
+
+func editCff2TwoFontDicts(f *sfntFile, rng *ev.Rand) ([]uint32, bool) {
+	t := f.tables["CFF2"]
+	n := f.numGlyphs()
+	if len(t) < 5 || t[0] != 2 || n == 0 {
+		return nil, false
+	}
+	hs, tl := int(t[2]), int(binary.BigEndian.Uint16(t[3:]))
+	if hs+tl > len(t) {
+		return nil, false
+	}
+	top, ok := parseDict(t[hs : hs+tl])
+	if !ok {
+		return nil, false
+	}
+	charStrings, fdArray, vstore := -1, -1, -1
+	var keep []byte // operators other than the offsets, verbatim (FontMatrix)
+	for _, e := range top {
+		switch e.op {
+		case 17:
+			charStrings = e.nums[len(e.nums)-1]
+		case 0x0C24:
+			fdArray = e.nums[len(e.nums)-1]
+		case 0x0C25:
+			return nil, false // already has an FDSelect
+		case 24:
+			vstore = e.nums[len(e.nums)-1]
+		default:
+			keep = append(keep, e.operands...)
+			if e.op >= 0x0C00 {
+				keep = append(keep, 12, byte(e.op))
+			} else {
+				keep = append(keep, byte(e.op))
+			}
+		}
+	}
+	if charStrings <= 0 || fdArray <= 0 || vstore <= 0 || vstore+2 > len(t) {
+		return nil, false
+	}
+	_, nfd, ok := index2Size(t, fdArray)
+	if !ok || nfd != 1 {
+		return nil, false
+	}
+	fdDict, ok := index2Item(t, fdArray, 0)
+	if !ok {
+		return nil, false
+	}
+	fde, ok := parseDict(fdDict)
+	if !ok {
+		return nil, false
+	}
+	privSize, privOff := -1, -1
+	for _, e := range fde {
+		if e.op == 18 && len(e.nums) == 2 {
+			privSize, privOff = e.nums[0], e.nums[1]
+		}
+	}
+	if privSize < 0 || privOff+privSize > len(t) {
+		return nil, false
+	}
+	if pe, ok := parseDict(t[privOff : privOff+privSize]); ok {
+		for _, e := range pe {
+			if e.op == 22 {
+				return nil, false // the original private dict names a vsindex itself
+			}
+		}
+	} else {
+		return nil, false
+	}
+	// variation store: add an ItemVariationData with another region count
+	vsLen := int(binary.BigEndian.Uint16(t[vstore:]))
+	if vstore+2+vsLen > len(t) || vsLen < 8 {
+		return nil, false
+	}
+	vs := t[vstore+2 : vstore+2+vsLen]
+	if binary.BigEndian.Uint16(vs) != 1 {
+		return nil, false
+	}
+	regOff := int(binary.BigEndian.Uint32(vs[2:]))
+	ivdCount := int(binary.BigEndian.Uint16(vs[6:]))
+	if ivdCount < 1 || 8+4*ivdCount > len(vs) || regOff+4 > len(vs) {
+		return nil, false
+	}
+	axisCount, regionCount := int(binary.BigEndian.Uint16(vs[regOff:])), int(binary.BigEndian.Uint16(vs[regOff+2:]))
+	regLen := 4 + 6*axisCount*regionCount
+	if regionCount < 1 || regOff+regLen > len(vs) {
+		return nil, false
+	}
+	var ivds [][]byte
+	for i := 0; i < ivdCount; i++ {
+		o := int(binary.BigEndian.Uint32(vs[8+4*i:]))
+		if o+6 > len(vs) {
+			return nil, false
+		}
+		items, words, k := int(binary.BigEndian.Uint16(vs[o:])), int(binary.BigEndian.Uint16(vs[o+2:])), int(binary.BigEndian.Uint16(vs[o+4:]))
+		l := 6 + 2*k + items*(k+words)
+		if words&0x8000 != 0 || o+l > len(vs) {
+			return nil, false
+		}
+		ivds = append(ivds, vs[o:o+l])
+	}
+	k0 := int(binary.BigEndian.Uint16(ivds[0][4:]))
+	k1 := k0 + 1 + rng.Intn(2)
+	if k0 >= 2 && rng.Intn(2) == 0 {
+		k1 = k0 - 1
+	}
+	ivd := []byte{0, 0, 0, 0, byte(k1 >> 8), byte(k1)}
+	for i := 0; i < k1; i++ {
+		r := i % regionCount
+		ivd = append(ivd, byte(r>>8), byte(r))
+	}
+	ivds = append(ivds[:1], append([][]byte{ivd}, ivds[1:]...)...) // new data is ItemVariationData 1
+	nvs := make([]byte, 8+4*len(ivds))
+	binary.BigEndian.PutUint16(nvs, 1)
+	binary.BigEndian.PutUint32(nvs[2:], uint32(len(nvs)))
+	binary.BigEndian.PutUint16(nvs[6:], uint16(len(ivds)))
+	nvs = append(nvs, vs[regOff:regOff+regLen]...)
+	for i, d := range ivds {
+		binary.BigEndian.PutUint32(nvs[8+4*i:], uint32(len(nvs)))
+		nvs = append(nvs, d...)
+	}
+	if ivdCount > 1 {
+		// charstrings that say `vsindex 1` themselves would now name the new data
+		return nil, false
+	}
+	// new layout
+	newTopLen := len(keep) + 4*5 + 1 + 2 + 2 + 1
+	delta := newTopLen - tl
+	body := t[hs+tl:] // global subr INDEX and everything behind it
+	base := 5 + newTopLen + len(body)
+	fd0Priv := []byte{140, 22} // 1 vsindex
+	fd0PrivOff := base
+	fd0 := append(append(dictInt(len(fd0Priv)), dictInt(fd0PrivOff)...), 18)
+	fd1 := append(append(dictInt(privSize), dictInt(privOff-hs+5+delta)...), 18)
+	fdArrayOff := fd0PrivOff + len(fd0Priv)
+	fda := []byte{0, 0, 0, 2, 1, 1, byte(1 + len(fd0)), byte(1 + len(fd0) + len(fd1))}
+	fda = append(append(fda, fd0...), fd1...)
+	fdSelectOff := fdArrayOff + len(fda)
+	fds := make([]byte, 1+n)
+	for i := 1; i <= n; i++ {
+		fds[i] = 1
+	}
+	vstoreOff := fdSelectOff + len(fds)
+	ntop := append([]byte(nil), keep...)
+	ntop = append(append(ntop, dictInt(charStrings-hs+5+delta)...), 17)
+	ntop = append(append(ntop, dictInt(fdArrayOff)...), 12, 36)
+	ntop = append(append(ntop, dictInt(fdSelectOff)...), 12, 37)
+	ntop = append(append(ntop, dictInt(vstoreOff)...), 24)
+	if len(ntop) != newTopLen {
+		return nil, false
+	}
+	out := []byte{2, 0, 5, byte(newTopLen >> 8), byte(newTopLen)}
+	out = append(out, ntop...)
+	out = append(out, body...)
+	out = append(out, fd0Priv...)
+	out = append(out, fda...)
+	out = append(out, fds...)
+	out = append(out, byte(len(nvs)>>8), byte(len(nvs)))
+	out = append(out, nvs...)
+	f.tables["CFF2"] = out
+	return nil, true
 }
